@@ -11,7 +11,7 @@ from han import autodecoder, dlde, hdlc
 from han.common import DlmsMessage
 from vlib import budget
 from vlib.pool import DECODER_NAMES, GENUINE, NAMES, PRIME_FOR, hdlc_frame_with
-from vlib.runner import BudgetExceeded, Check, HypClause, Info, fail
+from vlib.runner import BudgetExceeded, Check, FuzzClause, HypClause, Info, fail
 
 logging.disable(logging.CRITICAL)
 
@@ -229,7 +229,9 @@ def build() -> Check:
             "(enumerated). Oracle: result is dict or None, no exception escapes, deterministic budgets hold: line events in han/ <= "
             "5000+100n+n^2/4, Python calls <= 50000+3000n (sys.monitoring), tracemalloc peak <= 2 MiB + 8 KiB*n on all ASCII cases and a 1-in-20 "
             "sample. Non-trivial = mutated/truncated genuine message that some decoder grammar still parses (or that decodes), or an ASCII "
-            "fragment containing a parenthesis. Failures are bucketed by (exception type, innermost han function)."
+            "fragment containing a parenthesis. Failures are bucketed by (exception type, innermost han function). coverage-guided: atheris "
+            "(libFuzzer) campaigns with han/ instrumented on the same oracle, half from an empty corpus and half seeded with the pool; "
+            "executions are counted in evaluations but not in distinct_nontrivial."
         ),
         assumptions=[
             "Budgets are deterministic counters, not wall-clock; a 30 s SIGALRM backstop only marks a case inconclusive (class INCONCLUSIVE-30s-backstop).",
@@ -239,5 +241,6 @@ def build() -> Check:
         clauses=[
             HypClause("inputs", case_st, oracle, quick=16000, thorough=600000),
             EnumClause("truncations", size=lambda tier: len(trunc), case_at=trunc_case, oracle=oracle, doc="every truncation of every pool message"),
+            FuzzClause("coverage-guided", "C15", oracle, quick=(2, 1500), thorough=(16, 120000), max_len=700, doc="atheris/libFuzzer campaigns on the same oracle (raw bytes -> remembered decoder, entry point, payload), empty and fixture corpora"),
         ],
     )
